@@ -93,11 +93,11 @@ PROPS = {
                 profile=Profile(p_hash_read=0.0, check_all_versions=0.5, iters=0.3, big=0.05),
                 title="versioned key-value semantics"),
     "C02": dict(kind="v1hist", quick_n=1500, thorough_n=4000,
-                profile=Profile(p_hash_read=0.9, proofs=0.3, iters=0.2, exports=0.0, check_all_versions=0.4,
+                profile=Profile(p_hash_read=0.9, proofs=0.3, iters=0.2, exports=0.0, check_all_versions=0.4, p_churn=0.15,
                                 big=0.05, imm_reads=["hash", "hash", "get", "iterate"]),
                 title="canonical root hash"),
     "C03": dict(kind="v1hist", quick_n=800, thorough_n=2500, oracle=proof_oracle,
-                profile=Profile(proofs=1.0, p_empty_value=0.0, check_all_versions=0.05, big=0.1,
+                profile=Profile(proofs=1.0, p_empty_value=0.04, check_all_versions=0.05, big=0.1,
                                 reads_per_version=(0, 1), imm_reads_per_version=(0, 1)),
                 title="ICS-23 proofs"),
     "C07": dict(kind="v1hist", quick_n=1500, thorough_n=6000,
@@ -265,7 +265,13 @@ def sig_empty_value_proof(lines, d):
     return d["kind"] == "oracle" and (" x " in (d["impl"] or "") and "proof" in d["line"])
 
 
+def sig_empty_key_proof(lines, d):
+    # K28: ics23 refuses an existence leaf whose key is empty (format E(<key> <value> ...), empty bytes print as `x`)
+    return d["kind"] == "oracle" and "E(x " in (d["impl"] or "") and "proof" in d["line"]
+
+
 SIGNATURES = {
+    "empty-key-proof": sig_empty_key_proof,
     "empty-value-proof": sig_empty_value_proof,
     "hash-on-dirty-tree-iv": sig_hash_on_dirty_tree_iv,
     "pin-toctou": sig_pin_toctou,
@@ -406,6 +412,14 @@ def run_check(prop, tier, seed, n_override=None):
                 agreed += 1
                 continue
             k = match_known(prop, h["lines"], d)
+            while k and d["kind"] == "oracle":
+                # a recorded finding about one answer (the state is untouched): keep judging the rest of the history
+                known_seen.append((k, h, d))
+                d = C.first_divergence(h, oracle, start=d["idx"] + 1)
+                k = match_known(prop, h["lines"], d) if d else None
+            if d is None:
+                agreed += 1
+                continue
             if k:
                 known_seen.append((k, h, d))
                 continue
@@ -488,7 +502,10 @@ def run_check(prop, tier, seed, n_override=None):
 
 
 def replay(prop, path):
-    r = json.load(open(path))
+    if path.endswith(".hist"):
+        r = {"history": [l.rstrip("\n") for l in open(path) if l.strip()]}
+    else:
+        r = json.load(open(path))
     lines = r.get("history")
     if not lines:
         print(json.dumps(r, indent=1))
